@@ -85,6 +85,14 @@ def make_inputs(seed, n_family, n_mut, n_raw, with_android=True, size=1.0, featu
             for tail in (b'', b'\n', b'c', b'\x00', b'class M { }'):
                 cases.append(dict(id='w%d' % k, path='wide/W%d.java' % k, data=mark + tail, origin='mutant'))
                 k += 1
+    # Javadoc tag lines whose first word changes length when its case is changed, holds bytes that are no UTF-8, or
+    # is all there is on the line
+    if n_mut:
+        tags = [b'@\xc8\xba\xc8\xba\xc8\xba x', b'@\xc8\xba\xc8\xbe', b'@\xc4\xd6\xdc y', b'@\xff', b'@', b'@ ', b'@A', b'@AUTHOR x', b'@Author\tx', b'@\xc4\xb0 z', b'@\xe2\x84\xaa k',
+                b'@param', b'@param ', b'@return\xc2\xa0x', b'@\xc5\xbf s', b'@since\x00', b'@' + b'\xc8\xba' * 40, b'@see ' + b'\xe6\xbc\xa2' * 30]
+        for j, tg in enumerate(tags):
+            for form in (b'/** ' + tg + b' */\nclass J%d { }\n' % j, b'/**\n * ' + tg + b'\n */\nclass J%d { /** ' % j + tg + b' */ void m() { } }\n', b'/**\n' + tg + b'\n*/ class J%d { }\n' % j):
+                cases.append(dict(id='j%d' % len([c for c in cases if c['id'].startswith('j')]), path='jdoc/J%d.java' % len([c for c in cases if c['id'].startswith('j')]), data=form, origin='mutant'))
     # minimal tokens inserted into / substituted in family files (a share of the mutant budget)
     k = 0
     for src in fam[:max(1, n_mut // 150)] if n_mut else []:
@@ -390,7 +398,7 @@ def disk_locations(cases, workdir, harness):
     envroot = os.path.join(workdir, 'disk_env')
     shutil.rmtree(envroot, ignore_errors=True)
     sub = [c for c in cases if not os.path.isabs(c['path'])]
-    sub = sub[:25] + [c for c in sub[25:] if c['id'][0] in 'wbl'][:40]
+    sub = sub[:25] + [c for c in sub[25:] if c['id'][0] in 'wblj'][:70]
     for c in sub:
         p_ = os.path.join(envroot, c['id'], c['path'])
         os.makedirs(os.path.dirname(p_), exist_ok=True)
